@@ -25,7 +25,13 @@ META = {
     "autoescape true / false / a runtime flag with both values, under Environment(autoescape=False/True). Every base "
     "template is rendered together with its variants: optimized=False, each single literal (and each safe-marked literal, as "
     "Markup) lifted to a context variable holding the same value, all of them lifted, and the static autoescape argument "
-    "lifted to a runtime flag. All variants must render the same text or raise the same exception class.",
+    "lifted to a runtime flag. All variants must render the same text or raise the same exception class. Mixed family: a "
+    "menu of constant expressions that the optimizer folds (negative ints/floats produced by unary minus, arithmetic, "
+    "filters, conditional expressions and item access; -0.0, exponent-spelled floats, inf/-inf/nan, bool, none, str, Markup, "
+    "tuple/list/dict) is put in every operand/argument position next to RUNTIME operands x, y (both sides of every binary "
+    "operator, nested and unary-wrapped powers, comparisons, and/or/not, conditional expressions, filter and test arguments, "
+    "container items, subscripts and slice bounds) for several (x, y) value vectors, with the same variants; the menu is "
+    "checked against the real optimizer to fold.",
     "note": "Metamorphic: no reference evaluator; a defect shared by folded and runtime evaluation is invisible here (C02 covers "
     "that). Depth-2 shapes are filled from leaf vectors and see one (placement, context) each in rotation (quick); `sameas` "
     "is excluded (constant identity is a CPython accident).",
@@ -128,9 +134,10 @@ def lift_points(ast):
     return pts
 
 
-def variants(ast, placement, auto, wrapper):
-    """[(kind, label, env kwargs, template source, data)]; the first is the base."""
-    base_data = {}
+def variants(ast, placement, auto, wrapper, extra=None):
+    """[(kind, label, env kwargs, template source, data)]; the first is the base.  `extra`: values of the runtime names
+    the expression uses (the mixed family); they are the same in every variant."""
+    base_data = dict(extra or {})
     if wrapper.startswith("flag"):
         base_data["flag"] = wrapper == "flagT"
     src = G.to_src(ast)
@@ -181,10 +188,10 @@ def render(auto, env_kw, tsrc, data):
         return ("exc", type(e).__name__)
 
 
-def judge(ast, ctx, p=None):
+def judge(ast, ctx, p=None, extra=None):
     """-> [] or [(variant kind, label, base outcome, variant outcome, base tsrc, variant tsrc, variant data)]"""
     placement, auto, wrapper = ctx
-    vs = variants(ast, placement, auto, wrapper)
+    vs = variants(ast, placement, auto, wrapper, extra)
     outs = [render(auto, kw, tsrc, data) for (_, _, kw, tsrc, data) in vs]
     if p is not None:
         p.evals += len(vs)
@@ -226,10 +233,10 @@ def script_for(auto, base_tsrc, base_data, var_tsrc, var_data, var_kw):
     )
 
 
-def check(p, ast, ctx):
-    bad = judge(ast, ctx, p)
+def check(p, ast, ctx, extra=None):
+    bad = judge(ast, ctx, p, extra)
     if not bad:
-        return
+        return False
     placement, auto, wrapper = ctx
     # smallest sub-expression that still shows a difference in the same escaping context (in any placement)
     small, sctx = ast, ctx
@@ -237,7 +244,7 @@ def check(p, ast, ctx):
         found = False
         for _, child in G.subnodes(small):
             for pl in (sctx[0],) + tuple(x for x in PLACEMENTS if x != sctx[0]):
-                cb = judge(child, (pl, auto, wrapper))
+                cb = judge(child, (pl, auto, wrapper), None, extra)
                 if cb:
                     small, sctx, bad, found = child, (pl, auto, wrapper), cb, True
                     break
@@ -248,13 +255,16 @@ def check(p, ast, ctx):
     kinds = sorted({b[0] for b in bad})
     cls = "flag" if kinds == ["lift-flag"] else "fold"
     kind, label, bo, vo, btsrc, vtsrc, vdata = bad[0]
-    base_data = {"flag": wrapper == "flagT"} if wrapper.startswith("flag") else {}
+    base_data = dict(extra or {})
+    if wrapper.startswith("flag"):
+        base_data["flag"] = wrapper == "flagT"
     shown = {k: (("Markup(%r)" % str(v)) if isinstance(v, Markup) else v) for k, v in vdata.items()}
     p.violation(f"C08/{root_class(small)}/{effective(auto, wrapper)}/{cls}", {
         "msg": f"Environment(autoescape={auto}) {btsrc!r} {base_data!r} -> {bo!r} but {label}: {vtsrc!r} {shown!r} -> {vo!r}"
                f"  (differing variants: {'+'.join(kinds)}; found in {G.to_src(ast)!r} as {placement})",
         "autoescape": auto, "base": btsrc, "variant": vtsrc, "variant_kinds": kinds,
         "script": script_for(auto, btsrc, base_data, vtsrc, vdata, {"optimized": False} if kind == "noopt" else {})})
+    return True
 
 
 # ---- results that are container subclasses / rich objects on constant input, used through their own API
@@ -353,6 +363,120 @@ def rich_shard(arg):
     return p
 
 
+# ---- mixed family: a constant sub-expression that folds, used next to a RUNTIME operand.  The folded value is written
+# into the generated module as a literal and has to stay one operand there (sign, exponent spelling, inf/nan, Markup,
+# containers), whatever operator or argument position it sits in.
+
+def _mixed():
+    I, S, L, D, F, FL, U, B = G.Int, G.Str, G.List, G.Dict, G.Filter, G.Float, G.Un, G.Bin
+    big = B("*", FL(1e308), I(10))
+    consts = [
+        # negative numbers, produced in every way the folder has
+        U("-", I(2)), U("-", FL(2.5)), U("-", FL(0.5)), B("-", I(1), FL(1.5)), B("*", FL(0.5), U("-", I(4))),
+        B("/", U("-", I(7)), I(2)), B("-", I(1), I(4)), F(S("-1.5"), "float"), F(S("-3"), "int"),
+        G.Cond(G.TRUE, U("-", FL(1.5)), I(1)), G.Item(L(U("-", FL(1.5)), I(1)), I(0)), F(L(I(3), U("-", FL(1.5))), "min"),
+        U("-", FL(0.0)), U("-", B("**", I(2), I(70))),
+        # non-negative numbers and numbers whose repr is not a plain decimal
+        I(2), I(0), FL(2.5), F(U("-", FL(2.5)), "abs"), FL(1e22), U("-", FL(1e22)), FL(1e-07), big, U("-", big), B("-", big, big),
+        # the other constant types
+        G.TRUE, G.NONE, S("<a>"), S("2"), SAFE("<s>"), B("~", S("a"), I(1)),
+        G.Tuple(U("-", FL(1.5)), I(2)), L(U("-", I(1)), S("<b>")), D((S("k"), U("-", FL(1.5)))),
+    ]
+    X, Y = G.Name("x"), G.Name("y")
+    pos = []
+    for op in ("+", "-", "*", "/", "//", "%", "**", "~"):
+        pos.append(("K%sx" % op, (lambda op: lambda k: B(op, k, X))(op)))
+        pos.append(("x%sK" % op, (lambda op: lambda k: B(op, X, k))(op)))
+    pos += [
+        ("(-K)**x", lambda k: B("**", U("-", k), X)), ("(+K)**x", lambda k: B("**", U("+", k), X)),
+        ("-(K**x)", lambda k: U("-", B("**", k, X))), ("K**x**y", lambda k: B("**", B("**", k, X), Y)),
+        ("x**(K**y)", lambda k: B("**", X, B("**", k, Y))), ("y*K**x", lambda k: B("*", Y, B("**", k, X))),
+        ("K**x*y", lambda k: B("*", B("**", k, X), Y)), ("K**(x|int)", lambda k: B("**", k, F(X, "int"))),
+        ("K**x|string", lambda k: B("**", k, F(X, "string"))), ("(K**x)|abs", lambda k: F(B("**", k, X), "abs")),
+        ("K*x+K", lambda k: B("+", B("*", k, X), k)), ("x-K-K", lambda k: B("-", B("-", X, k), k)),
+        ("K==x", lambda k: G.Cmp(k, ("==", X))), ("K<x", lambda k: G.Cmp(k, ("<", X))), ("x<K", lambda k: G.Cmp(X, ("<", k))),
+        ("x in K", lambda k: G.Cmp(X, ("in", k))), ("K in x", lambda k: G.Cmp(k, ("in", X))),
+        ("y<K<=x", lambda k: G.Cmp(Y, ("<", k), ("<=", X))), ("K**x<y", lambda k: G.Cmp(B("**", k, X), ("<", Y))),
+        ("K and x", lambda k: G.And(k, X)), ("x and K", lambda k: G.And(X, k)), ("K or x", lambda k: G.Or(k, X)),
+        ("not K**x", lambda k: G.Not(B("**", k, X))),
+        ("K if x else y", lambda k: G.Cond(X, k, Y)), ("x if K else y", lambda k: G.Cond(k, X, Y)), ("K if x", lambda k: G.Cond(X, k)),
+        ("K**x if y else K", lambda k: G.Cond(Y, B("**", k, X), k)),
+        ("K|default(x)", lambda k: F(k, "default", (X,))), ("u|default(K**x)", lambda k: F(G.Name("u"), "default", (B("**", k, X),))),
+        ("x|default(K)", lambda k: F(X, "default", (k,))), ("K|round(x)", lambda k: F(k, "round", (X,))),
+        ("[K,x]", lambda k: L(k, X)), ("(K**x,K)", lambda k: G.Tuple(B("**", k, X), k)), ("{k:K,j:x}", lambda k: D((S("k"), k), (S("j"), X))),
+        ("[K,x]|sum", lambda k: F(L(k, X), "sum")), ("[K**x]|first", lambda k: F(L(B("**", k, X)), "first")),
+        ("K[x]", lambda k: G.Item(k, X)), ("x[K]", lambda k: G.Item(X, k)), ("z[K:]", lambda k: G.Slice(G.Name("z"), k, None, None)),
+        ("z[::K]", lambda k: G.Slice(G.Name("z"), None, None, k)), ("z[K**x]", lambda k: G.Item(G.Name("z"), B("**", k, X))),
+        ("K is divisibleby x", lambda k: G.Test(k, "divisibleby", (X,))), ("x is divisibleby K", lambda k: G.Test(X, "divisibleby", (k,))),
+        ("x is eq K", lambda k: G.Test(X, "eq", (k,))), ("K**x is number", lambda k: G.Test(B("**", k, X), "number")),
+    ]
+    return consts, pos
+
+
+MIXED_CONSTS, MIXED_POSITIONS = _mixed()
+# runtime values of (x, y); z is a fixed runtime list, u is undefined.  Even, fractional, negative and non-numeric x.
+MIXED_DATA = [(2, 3), (0.5, 2), (-3, 0), ("<x>", 1), (3, 0.5), (0, -1)]
+MIXED_Z = [0, "<z>", 2, 3, 4]
+
+
+def const_class(ast):
+    """What the real optimizer makes of the constant expression alone: 'folded:<type><sign>' or 'not-folded'."""
+    import jinja2
+    from jinja2 import nodes
+    from jinja2.optimizer import optimize
+
+    env = jinja2.Environment()
+    try:
+        out = optimize(env.parse("{{ " + G.to_src(ast) + " }}"), env).body[0].nodes[0]
+    except Exception as e:  # noqa: BLE001
+        return "error:" + type(e).__name__
+    if not isinstance(out, nodes.Const):
+        return "not-folded"
+    v = out.value
+    t = type(v).__name__
+    if isinstance(v, (int, float)) and not isinstance(v, bool):
+        if v != v:
+            return "folded:" + t + ":nan"
+        if v in (float("inf"), float("-inf")):
+            t += ":inf"
+        return "folded:" + t + ("-" if str(v).startswith("-") else "+")
+    return "folded:" + t
+
+
+def mixed_shard(arg):
+    """every constant x every position x every (x, y) vector (quick: 3 vectors), each in `nctx` contexts taken in rotation
+    (stride 11: placement and wrapper both vary); thorough: every context for the first data vector."""
+    quick, ki = arg
+    warnings.filterwarnings("ignore", category=SyntaxWarning)
+    p = core.Part()
+    k = MIXED_CONSTS[ki]
+    kc = const_class(k)
+    p.count("mixed_const_" + kc)
+    data = MIXED_DATA[:3] if quick else MIXED_DATA
+    n = 0
+    for pi, (pname, build) in enumerate(MIXED_POSITIONS):
+        ast = build(k)
+        for di, (x, y) in enumerate(data):
+            extra = {"x": x, "y": y, "z": list(MIXED_Z)}
+            if quick:
+                ctxs = [CONTEXTS[(ki * 3 + pi * 7 + di * 11) % len(CONTEXTS)]]
+            elif di == 0:
+                ctxs = CONTEXTS
+            else:
+                ctxs = [CONTEXTS[(ki * 3 + pi * 7 + di * 11 + j * 13) % len(CONTEXTS)] for j in range(3)]
+            for ctx in ctxs:
+                check(p, ast, ctx, extra)
+                n += 1
+        p.count("mixed_expressions")
+        if kc.startswith("folded:"):
+            p.count("mixed_folded_operand_expressions")
+            if kc.endswith("-") and "**" in pname:
+                p.count("mixed_negative_const_in_power")
+        p.sample({"expr": G.to_src(ast), "const": kc, "data": [list(d) for d in data]}, cap=1)
+    p.count("mixed_cases", n)
+    return p
+
+
 def prep(ast):
     n = G.count_pows(ast)
     if n > 2:
@@ -434,7 +558,8 @@ def run(ctx: core.Ctx):
                 "non-trivial = every base template; distinct = distinct (placement, wrapper, autoescape, base outcome)")
     ctx.assumptions += ["lifting replaces a literal by a context variable holding the equal Python value (Markup for "
                         "`\"..\"|safe`); containers are lifted leaf-wise", "exceptions compared by class name",
-                        "`sameas` not generated", "object addresses in rendered text are normalised"]
+                        "`sameas` not generated", "object addresses in rendered text are normalised",
+                        "mixed family: runtime names x, y, z keep the same value in every variant; u is undefined"]
     d1 = [(quick, i) for i in range(-1, len(FORMS))]
     if os.environ.get("VERIF_SMOKE"):
         d1 = d1[::int(os.environ["VERIF_SMOKE"])]
@@ -443,6 +568,20 @@ def run(ctx: core.Ctx):
     if os.environ.get("VERIF_SMOKE"):
         rich = rich[::max(1, int(os.environ["VERIF_SMOKE"]) // 10)]
     ctx.pmap(rich_shard, rich)
+    ctx.pmap(mixed_shard, [(quick, i) for i in range(len(MIXED_CONSTS))])
+    c = ctx.counters
+    for key in ("mixed_folded_operand_expressions", "mixed_negative_const_in_power", "mixed_const_folded:float-",
+                "mixed_const_folded:int-", "mixed_const_folded:float:inf-", "mixed_const_folded:float:nan", "mixed_const_folded:Markup",
+                "mixed_const_folded:tuple"):
+        if not c.get(key):
+            raise core.HarnessError(f"mixed family is vacuous: counter {key!r} is 0 (the optimizer did not fold the constant operand)")
+    if c.get("mixed_const_not-folded") or any(k.startswith("mixed_const_error") for k in c):
+        raise core.HarnessError("mixed family: a menu entry is not folded by the optimizer: %r" % {
+            k: v for k, v in c.items() if k.startswith("mixed_const_")})
+    ctx.cov["mixed"] = {"constants": len(MIXED_CONSTS), "positions": len(MIXED_POSITIONS),
+                        "data_vectors": 3 if quick else len(MIXED_DATA), "cases": c.get("mixed_cases", 0),
+                        "const_classes": {k[len("mixed_const_"):]: v for k, v in sorted(c.items()) if k.startswith("mixed_const_")},
+                        "negative_const_in_power": c.get("mixed_negative_const_in_power", 0)}
     plan = [("d2-sub", space("d2-sub").count(), 3, 1, 200)] if quick else [
         ("d2", space("d2").count(), 2, 2, 300), ("d3", space("d3").count(), 1, 1, 2000)]
     shards = []
